@@ -48,16 +48,16 @@ end fields
 
 /-! ## the scan -/
 
-theorem readLoop_ok (es : List Entry) : ∀ (pre tail : Bytes) (fuel pos used : Nat),
+theorem readLoopAcc_ok (es : List Entry) : ∀ (pre tail : Bytes) (fuel pos used : Nat) (acc : List Item),
     pos = pre.length → used = pos + (encEntries es).length → used < 2147483648 → es.length ≤ fuel →
-    readLoop (pre ++ (encEntries es ++ tail)) used fuel pos = .ok (scanOut pos es) := by
+    readLoopAcc (pre ++ (encEntries es ++ tail)) used fuel pos acc = .ok (acc.reverse ++ scanOut pos es) := by
   induction es with
   | nil =>
-    intro pre tail fuel pos used hp hu _ _
+    intro pre tail fuel pos used acc hp hu _ _
     have : ¬ pos < used := by simp at hu; omega
-    cases fuel <;> simp [readLoop, this, scanOut]
+    cases fuel <;> simp [readLoopAcc, this, scanOut]
   | cons e es ih =>
-    intro pre tail fuel pos used hp hu hlt hf
+    intro pre tail fuel pos used acc hp hu hlt hf
     obtain ⟨fuel, rfl⟩ : ∃ f, fuel = f + 1 := ⟨fuel - 1, by simp at hf; omega⟩
     have hlen : used = pos + entryLen e.key + (encEntries es).length := by simp at hu; omega
     have hk : klen e.key < 2147483648 := by unfold entryLen at hlen; omega
@@ -67,7 +67,8 @@ theorem readLoop_ok (es : List Entry) : ∀ (pre tail : Bytes) (fuel pos used : 
     have h3 := unpackTwoDoubles_entry hd hp
     have hpos : pos < used := by have := entryLen_pos e.key; omega
     have hin : ¬ (klen e.key + pos > used) := by unfold entryLen at hlen; omega
-    have hih := ih (pre ++ encEntry e) tail fuel (pos + entryLen e.key) used (by simp [hp]) (by omega) hlt
+    have hih := ih (pre ++ encEntry e) tail fuel (pos + entryLen e.key) used
+      ((e.key, e.v, e.t, pos + 4 + klen e.key + padLen (klen e.key)) :: acc) (by simp [hp]) (by omega) hlt
       (by simp at hf; omega)
     have hd' : pre ++ encEntry e ++ (encEntries es ++ tail) = pre ++ (encEntries (e :: es) ++ tail) := by simp
     rw [hd'] at hih
@@ -75,10 +76,19 @@ theorem readLoop_ok (es : List Entry) : ∀ (pre tail : Bytes) (fuel pos used : 
       simp [entryLen]; omega
     have hp2 : pos + 4 + (klen e.key + padLen (klen e.key)) = pos + 4 + klen e.key + padLen (klen e.key) := by
       omega
-    rw [readLoop]
-    simp only [hpos, if_true, h1, bind, Except.bind]
+    have hprog : ¬ (pos + entryLen e.key ≤ pos) := by have := entryLen_pos e.key; omega
+    rw [readLoopAcc]
+    simp only [hpos, if_true, h1]
     have hneg : ¬ ((klen e.key : Int) < 0) := by omega
     simp only [hneg, if_false, Int.toNat_natCast, hin, paddedLenReader_eq, lenFieldSkip, valueSkip, hnext]
-    simp only [hp2, h3, h2, decode_encode, hih, scanOut]
+    simp only [hp2, h3, h2, decode_encode, hprog, if_false, hih, scanOut, List.reverse_cons, List.append_assoc,
+      List.singleton_append]
+
+theorem readLoop_ok (es : List Entry) (pre tail : Bytes) (fuel pos used : Nat)
+    (hp : pos = pre.length) (hu : used = pos + (encEntries es).length) (hl : used < 2147483648) (hf : es.length ≤ fuel) :
+    readLoop (pre ++ (encEntries es ++ tail)) used fuel pos = .ok (scanOut pos es) := by
+  unfold readLoop
+  rw [readLoopAcc_ok es pre tail fuel pos used [] hp hu hl hf]
+  simp
 
 end PromVerif.Lemmas.Mmap
